@@ -27,6 +27,7 @@ REPO = Path("/repo")
 SIM = "src/mxlpy/simulator.py"
 INT = "src/mxlpy/integrators/int_scipy.py"
 INIT = "src/mxlpy/__init__.py"
+RES = "src/mxlpy/simulation.py"
 FIXES = ["C04-timeshift.diff", "C04-override-twice.diff", "C04-override-time.diff"]
 
 # id, properties to run, description, edits [(file, old, new, count)] or ("patch -R", diff)
@@ -82,6 +83,22 @@ MUTATIONS: list[tuple[str, list[str], str, list]] = [
        "        time_points = np.asarray(time_points, dtype=float)\n\n        # Check if end is actually larger", 1)]),
     ("M16", ["C04"], "simulate_to_steady_state: skipfirst=False -> True (the steady-state row is dropped when results exist)",
      [(SIM, "                rel_norm=rel_norm,\n            ),\n            skipfirst=False,", "                rel_norm=rel_norm,\n            ),\n            skipfirst=True,", 1)]),
+    # --- added in the second deepening pass (steady-state stamp; views of get_result() read between calls)
+    ("S4", ["C04"], "seeded/C04-4: _handle_simulation_results shifts back to absolute time only in the `elif skipfirst:` branch "
+                    "(a steady-state row after an override is stamped in the restarted integrator's relative time)",
+     [("patch", "/verif/seeded/C04-4/patch.diff")]),
+    ("V1", ["C04"], "re-based seeded/C04-6 on the current tree: the final `update_parameters(raw_parameters[-1])` of "
+                    "Simulation._get_fluxes_by_sign dropped (since b146866 nothing before it moves the model away from the last segment)",
+     [(RES, "        self.model.update_parameters(self.raw_parameters[-1])\n        if concatenated:", "        if concatenated:", 1)]),
+    ("V2", ["C04"], "seeded/C04-6 as it was confirmed: simulation.py of /repo commit c568b8a + seeded/C04-6/patch.diff transplanted "
+                    "(get_producers/get_consumers start at the FIRST segment's parameters and no longer restore the last)",
+     [("cmd", "git -C /repo show c568b8a:src/mxlpy/simulation.py > src/mxlpy/simulation.py && patch -p1 -s < /verif/seeded/C04-6/patch.diff")]),
+    ("V3", ["C04"], "Simulation._compute_args leaves the shared model at the FIRST segment's parameters",
+     [(RES, "                )\n            )\n        return self.raw_args\n",
+       "                )\n            )\n        self.model.update_parameters(self.raw_parameters[0])\n        return self.raw_args\n", 1)]),
+    ("V4", ["C04"], "Simulation.get_right_hand_side walks the segments LAST to FIRST (answers unchanged, the model is left at the first segment's parameters)",
+     [(RES, "                for args, p in zip(args_by_simulation, self.raw_parameters, strict=True)\n            ],",
+       "                for args, p in reversed(list(zip(args_by_simulation, self.raw_parameters, strict=True)))\n            ][::-1],", 1)]),
 ]
 
 
@@ -107,6 +124,16 @@ def mutate(dst: Path, edits: list) -> None:
             r = sh(f"patch -p1 -s -R < {VERIF / 'fixes' / e[1]}", cwd=dst)
             if r.returncode != 0:
                 raise SystemExit(f"patch -R {e[1]} failed: {r.stdout}{r.stderr}")
+            continue
+        if e[0] == "patch":
+            r = sh(f"patch -p1 -s < {e[1]}", cwd=dst)
+            if r.returncode != 0:
+                raise SystemExit(f"patch {e[1]} failed: {r.stdout}{r.stderr}")
+            continue
+        if e[0] == "cmd":
+            r = sh(e[1], cwd=dst)
+            if r.returncode != 0:
+                raise SystemExit(f"{e[1]} failed: {r.stdout}{r.stderr}")
             continue
         f, old, new, count = e
         p = dst / f
